@@ -138,7 +138,15 @@ def _dist_name(p):
     return s.rsplit("::", 1)[-1]
 
 
-def summarize(F, inst, max_paths=400):
+def summarize_ts(F, inst, max_paths=600):
+    """Transition-system summary: the function is cut at its entry and at every loop header; a *segment* is a feasible acyclic path from
+    one cut point to the next cut point (or to `return`).  At a loop-header cut every multiply-assigned local is a symbolic variable
+    (its name), so a segment's `updates` are the new values of the loop-carried variables in terms of the old ones."""
+    base = summarize(F, inst, max_paths, ts=True)
+    return base
+
+
+def summarize(F, inst, max_paths=400, ts=False):
     T = DrawTerms(F, inst)
     fi = FnInfo(F, inst)
     blocks = inst["blocks"]
@@ -147,6 +155,15 @@ def summarize(F, inst, max_paths=400):
     header = min(headers) if headers else None
     multi = {l for l, ds in T.body.defs.items() if len([d for d in ds if d[2] in ("assign", "call")]) > 1 and l != 0}
     T.pvals = {}
+    lname = {}
+    used = {}
+    for l in sorted(multi):
+        nm_ = inst["locals"][l].get("name") or "_%d" % l
+        if nm_ in used:
+            nm_ = "%s_%d" % (nm_, l)
+        used[nm_] = l
+        lname[l] = nm_
+    segments = []
     atoms = []          # (kind, lhs term, rhs term)  kind in lt/le/eq/call:<name>/variant
     paths = []
     notes = []
@@ -241,7 +258,8 @@ def summarize(F, inst, max_paths=400):
                     if d is not None and d[2] == "assign":
                         rv0 = d[3]["rv"]
                         if rv0["k"] == "use" and rv0["op"].get("k") in ("copy", "move") and not rv0["op"]["p"]:
-                            d = T.body.single_def(rv0["op"]["l"])
+                            dl = rv0["op"]["l"]
+                            d = T.body.single_def(dl)
                             continue
                         if rv0["k"] == "unop" and rv0["op"] == "Not" and rv0["a"].get("k") in ("copy", "move") and not rv0["a"]["p"]:
                             negate = not negate
@@ -249,6 +267,11 @@ def summarize(F, inst, max_paths=400):
                             continue
                     break
                 lit = None
+                if d is None and dl is not None and 0 < dl <= inst["arg_count"] and F.types[inst["locals"][dl]["ty"]]["k"] == "bool":
+                    lit = ("cmp", atom_id("flag", T.var(dl), ("const", 1)))           # a boolean parameter
+                if d is not None and d[2] == "assign" and d[3]["rv"]["k"] == "use" and d[3]["rv"]["op"].get("k") in ("copy", "move") and not d[3]["rv"]["op"]["p"] \
+                        and 0 < d[3]["rv"]["op"]["l"] <= inst["arg_count"] and F.types[inst["locals"][d[3]["rv"]["op"]["l"]]["ty"]]["k"] == "bool":
+                    lit = ("cmp", atom_id("flag", T.var(d[3]["rv"]["op"]["l"]), ("const", 1)))
                 if d is not None and d[2] == "assign" and d[3]["rv"]["k"] == "use" and d[3]["rv"]["op"].get("k") in ("copy", "move") and d[3]["rv"]["op"]["p"] \
                         and F.types[inst["locals"][d[3]["place"]["l"]]["ty"]]["k"] == "bool":
                     lit = ("cmp", atom_id("flag", T.of_operand(d[3]["rv"]["op"]), ("const", 1)))
@@ -302,6 +325,10 @@ def summarize(F, inst, max_paths=400):
         op2 = opaque + (1 if len(live) > 1 and all(lit is None for _, lit in live) else 0)
         for nxt, lit in live:
             l2 = lits + [lit] if lit is not None else lits
+            if ts and nxt in headers:
+                upd = {lname[l_]: v_ for l_, v_ in pvals.items() if l_ in multi and v_ != ("var", lname[l_])}
+                paths.append({"lits": l2, "outcome": ("goto", nxt, upd), "blocks": trail, "opaque": op2})
+                continue
             if nxt in seen:
                 if nxt in headers:
                     paths.append({"lits": l2, "outcome": ("continue",), "blocks": trail, "opaque": op2})
@@ -311,11 +338,19 @@ def summarize(F, inst, max_paths=400):
 
     import sys
     sys.setrecursionlimit(max(20000, sys.getrecursionlimit()))
-    walk(0, {0}, {}, [], [], True)
+    if not ts:
+        walk(0, {0}, {}, [], [], True)
+    else:
+        for cut in [0] + sorted(headers):
+            before = len(paths)
+            init = {} if cut == 0 else {l_: ("var", lname[l_]) for l_ in multi}
+            walk(cut, {cut}, {}, [], [], True, 0, init)
+            for p_ in paths[before:]:
+                p_["start"] = cut
     T.pvals = None
     if len(paths) >= max_paths:
         notes.append("path limit reached")
-    return {"atoms": atoms, "paths": paths, "terms": T, "loop": bool(headers), "notes": notes}
+    return {"atoms": atoms, "paths": paths, "terms": T, "loop": bool(headers), "notes": notes, "cuts": [0] + sorted(headers), "names": lname}
 
 
 def describe(summary):
@@ -324,5 +359,8 @@ def describe(summary):
         out.append("atom %d: %s  %s  |  %s" % (i, k, fmt(a)[:160], fmt(b2)[:120]))
     for p in summary["paths"]:
         o = p["outcome"]
-        out.append("path %s -> %s %s" % ([l for l in p["lits"]], o[0], fmt(o[1])[:200] if len(o) > 1 and isinstance(o[1], tuple) else ""))
+        if o[0] == "goto":
+            out.append("seg %s: %s -> goto %s {%s}" % (p.get("start"), [l for l in p["lits"]], o[1], ", ".join("%s: %s" % (k, fmt(v)[:90]) for k, v in sorted(o[2].items()))))
+        else:
+            out.append("path %s%s -> %s %s" % ("" if "start" not in p else "(from %s) " % p["start"], [l for l in p["lits"]], o[0], fmt(o[1])[:200] if len(o) > 1 and isinstance(o[1], tuple) else ""))
     return "\n".join(out)
